@@ -135,9 +135,33 @@ fn conv_oracle(c: &Conv) -> Verdict {
         }
     }
     if c.a == S_TAI {
+        // from_tai_parts with the canonical pair and with an un-normalised one (k centuries moved into the nanosecond field)
         let (cc, nn) = mk(c.c).to_parts();
-        let b = lib!(Epoch::from_tai_parts(cc, nn));
-        ensure!(b.time_scale == SCALES[S_TAI] && count(b.duration) == c.c && canonical(b.duration), "from_tai_parts({}, {}) has count {} in {:?}", cc, nn, count(b.duration), b.time_scale);
+        for k in [0i128, c.d.rem_euclid(5) + 1] {
+            let (c2, n2) = (cc as i128 - k, nn as i128 + k * NPC);
+            if c2 < i16::MIN as i128 || n2 > u64::MAX as i128 {
+                continue;
+            }
+            let b = lib!(Epoch::from_tai_parts(c2 as i16, n2 as u64));
+            ensure!(b.time_scale == SCALES[S_TAI] && count(b.duration) == c.c && canonical(b.duration), "from_tai_parts({}, {}) gives {:?} in {:?}, want the canonical form of count {}", c2, n2, b.duration.to_parts(), b.time_scale, c.c);
+        }
+    }
+    // float-valued accessors of the target scale: the same count in seconds and days, to float precision
+    {
+        let (sec, day): (f64, f64) = match c.b {
+            S_TAI => (lib!(e.to_tai_seconds()), lib!(e.to_tai_days())),
+            S_TT => (lib!(e.to_tt_seconds()), lib!(e.to_tt_days())),
+            S_GPST => (lib!(e.to_gpst_seconds()), lib!(e.to_gpst_days())),
+            S_QZSST => (lib!(e.to_qzsst_seconds()), lib!(e.to_qzsst_days())),
+            S_GST => (lib!(e.to_gst_seconds()), lib!(e.to_gst_days())),
+            _ => (lib!(e.to_bdt_seconds()), lib!(e.to_bdt_days())),
+        };
+        if let Err(m) = super::c17::check_float("seconds accessor", sec, want, NS_S) {
+            return Verdict::Fail(format!("{} -> {}: {}", SCALE_NAMES[c.a], SCALE_NAMES[c.b], m));
+        }
+        if let Err(m) = super::c17::check_float("days accessor", day, want, NS_D) {
+            return Verdict::Fail(format!("{} -> {}: {}", SCALE_NAMES[c.a], SCALE_NAMES[c.b], m));
+        }
     }
     if c.b == S_TAI {
         let j = lib!(e.to_duration_since_j1900());
